@@ -1558,6 +1558,15 @@ class Evaluator:
         return self.binop(type(e.op).__name__, self.eval(e.left, fr), self.eval(e.right, fr), e)
 
     def binop(self, op, a, b, node=None):
+        if op == "Sub" and a == Const(1) and isinstance(b, V) and not isinstance(b, Const):
+            from .terms import atoms_of as _atoms
+            if any(isinstance(x, App) and x.fn == "cdf" for x in [b] + list(_atoms(b))):
+                # 1 - cdf(x) written in the source: the upper tail by cancellation (cdf rounds to 1 beyond x ~ 8.3); sf computes it directly
+                self.event("tail_cancellation", op="1 - cdf(x)", arg=b, node=node, text=ast.unparse(node) if isinstance(node, ast.AST) else "1 - cdf(x)")
+            # remember complements formed by the SOURCE (value numbering also produces 1 - cdf(z) from cdf(-z): those are not in this set)
+            if not hasattr(self, "complement_keys"):
+                self.complement_keys = set()
+            self.complement_keys.add(sub(a, b).key if to_poly(b) is not None else "")
         if op == "Sub" and isinstance(a, V) and isinstance(b, V):
             ra, rb = raw_dtype_root(a), raw_dtype_root(b)
             if ra is not None and rb is not None:
